@@ -64,7 +64,7 @@ pub fn match_case(s: &str, tag: &str) -> Value {
 
 fn mutate_chars(rng: &mut Rng, s: &str) -> String {
     let mut cs: Vec<char> = s.chars().collect();
-    let pool = ['\'', '"', ' ', '.', '(', ')', '$', '=', '<', '@', '0', '9', 'x', '\u{e9}', '\n', '\\', '~', '&', '!', '-'];
+    let pool = ['\'', '"', ' ', '.', '(', ')', '$', '=', '<', '@', '0', '9', 'x', 'X', '\u{e9}', '\u{65e5}', '\n', '\\', '~', '&', '!', '-', '{', '}'];
     match rng.below(5) {
         0 if !cs.is_empty() => {
             let i = rng.below(cs.len());
@@ -176,7 +176,7 @@ pub fn gen(tier: &str, seed: u64, out: &mut dyn FnMut(Value)) {
     let ints = [
         "0", "-0", "1", "-1", "255", "256", "-256", "9223372036854775807", "9223372036854775808", "-9223372036854775808",
         "-9223372036854775809", "18446744073709551615", "18446744073709551616", "1000000000000000000000000000000", "-1000000000000000000000000000000",
-        "0x7fffffffffffffff", "0xffffffffffffffff", "0x10000000000000000", "1e400", "-1e400", "1.0", "0o17", "+5", "010", "1_000", ".5", "5.", "NaN", ".inf",
+        "0x7fffffffffffffff", "0xffffffffffffffff", "0x10000000000000000", "0X40", "0XFF", "0Xg", "0b101", "-0x10", "0x-10", "1e400", "-1e400", "1.0", "0o17", "+5", "010", "1_000", ".5", "5.", "NaN", ".inf",
     ];
     for a in ints {
         let t = format!("---\nname: r\nmatch-on:\n  events:\n    s: [{a}]\n");
@@ -208,6 +208,17 @@ pub fn gen(tier: &str, seed: u64, out: &mut dyn FnMut(Value)) {
         let t = mutate_bytes(&mut rng, "tpl_a: 'C:\\\\Windows\\\\(system32|syswow64)'\ntpl_b: \"{{tpl_a}}\"\n'a b': \"x\"\n");
         let r = mutate_bytes(&mut rng, "---\nname: r\nmatches:\n  $a: .x ~= '{{tpl_a}}\\\\cmd\\.exe'\n  $b: .y == '{{a b}}'\ncondition: $a and $b\n");
         out(json!({"op": "load_text", "templates": t, "rules": r, "tag": "template + rule, byte mutation", "nt": true}));
+    }
+    // non-ASCII text around placeholders, operands and conditions
+    for (t, m) in [
+        ("home: /home/\n", ".path == '{{home}}\u{e9}ric'"), ("home: \"\u{e9}\"\n", ".path == '{{home}}{{home}}x'"), ("h: x\n", "\u{e9}t\u{e9} == 'x'"),
+        ("h: x\n", ".p == '\u{65e5}{{h}}\u{672c}'"), ("\u{e9}: y\n", ".p == '{{\u{e9}}}\u{e9}'"), ("h: x\n", ".p ~= '{{h}}\u{1f600}+'"),
+    ] {
+        let r = format!("---\nname: r\nmatches:\n  $a: \"{}\"\ncondition: $a\n", m.replace('"', "\\\""));
+        out(json!({"op": "load_text", "templates": t, "rules": r, "tag": "non-ASCII around placeholders", "nt": true}));
+    }
+    for c in ["\u{e9}", "$\u{e9}", "$a and \u{e9}", "1 of $\u{e9}", "\u{a0}$a", "$a\u{2003}and $b"] {
+        out(json!({"op": "parse_cond", "s": c, "tag": "non-ASCII condition", "nt": true}));
     }
     // field paths (public `XPath::parse`): random strings over a wide alphabet
     let n = if thorough { 50000 } else { 5000 };
